@@ -2601,7 +2601,8 @@ class SSHConnection(SSHPacketHandler, asyncio.Protocol):
 
         packet.check_end()
 
-        if self.is_client() and self._auth:
+        if self.is_client() and self._auth and \
+                cast(ClientAuth, self._auth).request_sent:
             auth = cast(ClientAuth, self._auth)
 
             if self._auth_was_trivial and self._disable_trivial_auth:
